@@ -15,8 +15,8 @@ in two builds of the same text: native integers and -fwide-types (INTEGER_t).  V
 algebra (coq/Rt/Oer.v oer_int_ct / oer_int, coq/Rt/Uper.v), so the modules are handed to the EXISTING model tie of
 checks/c01.py (round trip in five syntaxes; the C decoders on the model's octets; transcoding chains): a compiler that
 emits another width than oer_int_ct makes model != code there (correspondence:Rt.oer_dec) and the encoder's refusal
-is seen by the oracle (oracle:roundtrip(coer), oracle:transcode).  No new Coq was needed for that; WidthRt.v states the
-width decision itself.
+is seen by the oracle (oracle:roundtrip(coer), oracle:transcode).  No new Coq was needed for that: oer_int_ct is the
+decision, and Rt/OerTotal.v oer_int_total / C01_oer_encode_decode already depend on it.
 In addition, independent of model AND library, `expected_oer` below computes the X.696 octets of a top-level value in
 Python and `check_oer` compares them with what the C encoder wrote (oracle:oer-width)."""
 import os
